@@ -13,7 +13,9 @@
      sqline <word>*        -> <hex>                   join_sp (map sq ws)
      inquote <hex>         -> true|false              in_quote_after l false
      pwdkey                -> <hex>
-     consts                -> <separator bytes> <quote byte>   (the regenerated literals of the tokenizer) *)
+     consts                -> <separator bytes> <quote byte>   (the regenerated literals of the tokenizer)
+     cmp <neg> <env> <name1> <name2> <text1> <text2> -> true|false   do_cmd_cmp in the current state (neg, env: 0|1)
+     holds <line> <k> <v>  -> true|false              c02_holds_on state cd line k v *)
 let st = ref (setup_env [])
 let cd = ref []
 let hexes l = String.concat " " (List.map hex_of_bytes l)
@@ -38,5 +40,8 @@ let () = serve (function
   | "sqline" :: ws -> hex_of_bytes (join_sp (List.map (fun w -> sq (bytes_of_hex w)) ws))
   | ["inquote"; x] -> string_of_bool (in_quote_after (bytes_of_hex x) false)
   | ["pwdkey"] -> hex_of_bytes pwd_key
+  | ["cmp"; neg; env; n1; n2; t1; t2] ->
+      string_of_bool (do_cmd_cmp !st (neg = "1") (env = "1") (bytes_of_hex n1) (bytes_of_hex n2) (bytes_of_hex t1) (bytes_of_hex t2))
+  | ["holds"; l; k; v] -> string_of_bool (c02_holds_on !st !cd (bytes_of_hex l) (bytes_of_hex k) (bytes_of_hex v))
   | ["consts"] -> hex_of_bytes ts_sep_bytes ^ " " ^ hex_of_bytes [ts_quote]
   | _ -> "BAD-REQUEST")
